@@ -1512,20 +1512,7 @@ class Exec:
                 self.write_place(st, fid, t['dest'], ret)
                 return st
             if callee in self.opaque:
-                rty = self.pdb.tys(self.pdb.fn(callee)['mir']['locals'][0])
-                snap = [self.load(st, a) if a[0] == 'ref' else a for a in args]
-                self.opaque_calls.append((callee, snap, self.gs(st)))
-                ret = mk_call('fn:' + callee, snap, rty)
-                rt = self.pdb.ty(self.pdb.fn(callee)['mir']['locals'][0])
-                if rt['k'] == 'tuple':
-                    els = []
-                    for i, e in enumerate(rt['elems']):
-                        et = self.pdb.ty(e)
-                        if et['k'] in ('int', 'bool', 'char'):
-                            els.append(mk_call('fn:%s#%d' % (callee, i), snap, et['s']))
-                        else:
-                            els.append(mk('field', ret, i))
-                    ret = agg(('tuple',), els)
+                ret = self.opaque_call(st, callee, args)
                 self.write_place(st, fid, t['dest'], ret)
                 return st
             cfn = self.pdb.fn(callee)
@@ -1551,6 +1538,24 @@ class Exec:
         ret, st = models.apply(self, ctx, st, f, args, dest_ty, t)
         self.write_place(st, fid, t['dest'], ret)
         return st
+
+    def opaque_call(self, st, callee, args):
+        """the uninterpreted result of calling a function that the rule asked to leave opaque"""
+        rty = self.pdb.tys(self.pdb.fn(callee)['mir']['locals'][0])
+        snap = [self.load(st, a) if a[0] == 'ref' else a for a in args]
+        self.opaque_calls.append((callee, snap, self.gs(st)))
+        ret = mk_call('fn:' + callee, snap, rty)
+        rt = self.pdb.ty(self.pdb.fn(callee)['mir']['locals'][0])
+        if rt['k'] == 'tuple':
+            els = []
+            for i, e in enumerate(rt['elems']):
+                et = self.pdb.ty(e)
+                if et['k'] in ('int', 'bool', 'char'):
+                    els.append(mk_call('fn:%s#%d' % (callee, i), snap, et['s']))
+                else:
+                    els.append(mk('field', ret, i))
+            ret = agg(('tuple',), els)
+        return ret
 
     def const_bindings(self, callee, f):
         gens = self.pdb.fn(callee).get('generics') or []
